@@ -16,6 +16,6 @@ def get_optimal_edges_su_2_n(ng:int) -> int:
 
 def get_optimal_su_2_n_generators(generators:PauliStringCollection) -> PauliStringCollection|None:
     """ Get optimal generator set for :math:`\\mathfrak{su}(2^{n})`."""
-    g = generators.copy().get_independents()
+    g = generators.copy().get_canonic_vertices()
     n_pair = get_optimal_edges_su_2_n(len(g))
     return g.find_generators_with_connection(n_pair) if n_pair > -1 else None
